@@ -36,6 +36,7 @@ def roundtrip(nrec, enc, blocked, cfgs=None, shapes=None, maxvar1=-1, maxrec=Fal
 
         def rp():
             return {'kind': 'roundtrip', 'args': {'msgs': [msg_witness(mm, ee, ev) for mm, ee in recs], 'enc': enc, 'blocked': blocked, 'cfg': cfgs or 'packaged'}}
+        core.set_fallback(rp, 'C06/concretised')
         if maxrec:
             # messages up to the configured maximum record length (larger ones cannot be read back by design)
             for msg, _ in recs:
@@ -76,6 +77,7 @@ def writers_isolated(steps, blocked):
         wa.close()
         wb.close()
         rp = {'kind': 'writers', 'args': {'sched': sched, 'blocked': blocked}}
+        core.set_fallback(rp, 'C06/concretised')
         # each file must equal what the same messages give in isolation
         for who, (f, enc) in enumerate(((fa, 'latin_1'), (fb, 'cp500'))):
             core.FUEL.set(20)
@@ -107,6 +109,7 @@ def readers_isolated(steps, blocked):
                    m.IpmReader(RopeFile(files[1]), encoding='cp500', blocked=blocked)]
         sched = [choose('who%d' % i, [0, 1]) for i in range(steps)]
         rp = {'kind': 'readers', 'args': {'sched': sched, 'blocked': blocked}}
+        core.set_fallback(rp, 'C06/concretised')
         count = [0, 0]
         done = [False, False]
         for who in sched:
@@ -152,6 +155,7 @@ def configs_isolated(blocked):
         msgA = {'MTI': '1240', 'DE2': '4444555566667777', 'PDS0023': vA}
         msgB = {'MTI': '1240', 'DE48': text, 'PDS0023': vB}
         rp = {'kind': 'configs', 'args': {'order': order, 'blocked': blocked, 'lens': [ev(nA), ev(nB), ev(nT)]}}
+        core.set_fallback(rp, 'C06/concretised')
         fa, fb = RopeFile(), RopeFile()
         wa = m.IpmWriter(fa, blocked=blocked, iso_config=cfgA)
         wb = m.IpmWriter(fb, blocked=blocked, iso_config=cfgB)
